@@ -110,6 +110,8 @@ Section JsFloat.
 Variable js_flt : Type.
 Variable js_fprint : js_flt -> list Z.               (* dump_float *)
 Variable js_fparse : list Z -> option js_flt.        (* strtod; None = not finite ("number overflow") *)
+Variable js_lim : option Z.                          (* l_MaxJsonNestingDepth of lib/base/json.cpp (regenerated source fact
+                                                        Facts_c20.f_js_max_depth); None = no nesting limit in the source *)
 
 Inductive js_value :=
 | JsNull
@@ -260,7 +262,7 @@ Fixpoint js_span_digits (l : list Z) : list Z * list Z :=
 (* scan_number: optional minus, zero or a non-zero digit and digits, optional fraction, optional exponent
    ->  (token text, is-integer, rest) *)
 Definition js_lex_num (l : list Z) : option (list Z * bool * list Z) :=
-  let '(sign, l1) := match l with 45 :: t => ([45], t) | _ => ([], l) end in
+  let '(sign, l1) := match l with b :: t => if b =? 45 then ([45], t) else ([], l) | [] => ([], l) end in
   match l1 with
   | [] => None
   | d :: t =>
@@ -269,9 +271,12 @@ Definition js_lex_num (l : list Z) : option (list Z * bool * list Z) :=
         let '(intpart, l2) := if d =? 48 then ([48], t) else js_span_digits l1 in
         let fracres :=
           match l2 with
-          | 46 :: t2 => let '(fd, l3) := js_span_digits t2 in
-                        match fd with [] => None | _ => Some (46 :: fd, l3) end
-          | _ => Some ([], l2)
+          | b :: t2 =>
+              if b =? 46 then
+                let '(fd, l3) := js_span_digits t2 in
+                match fd with [] => None | _ => Some (46 :: fd, l3) end
+              else Some ([], l2)
+          | [] => Some ([], l2)
           end in
         match fracres with
         | None => None
@@ -304,8 +309,8 @@ Definition js_int_overflow (z : Z) : bool := 2 ^ 1024 - 2 ^ 970 <=? Z.abs z.
 
 Definition js_int_of_tok (text : list Z) : Z :=
   match text with
-  | 45 :: ds => - ns_val ds
-  | ds => ns_val ds
+  | b :: ds => if b =? 45 then - ns_val ds else ns_val text
+  | [] => 0
   end.
 
 Definition js_is_ws (b : Z) : bool := (b =? 32) || (b =? 9) || (b =? 10) || (b =? 13).
@@ -371,7 +376,11 @@ Fixpoint js_obj_set (k : list Z) (v : js_value) (l : list (list Z * js_value)) :
       else (k, v) :: t
   end.
 
-Fixpoint js_pval (fuel : nat) (ts : list js_tok) : option (js_value * list js_tok) :=
+(* JsonSax::start_object / start_array: m_CurrentSubtree.size() >= limit -> throw; [d] = open containers *)
+Definition js_depth_ok (d : Z) : bool :=
+  match js_lim with Some m => d <? m | None => true end.
+
+Fixpoint js_pval (fuel : nat) (d : Z) (ts : list js_tok) : option (js_value * list js_tok) :=
   match fuel with
   | O => None
   | S f =>
@@ -382,31 +391,41 @@ Fixpoint js_pval (fuel : nat) (ts : list js_tok) : option (js_value * list js_to
       | JtInt z :: r => Some (JsNum z, r)
       | JtFlt x :: r => Some (JsFlt x, r)
       | JtStr s :: r => Some (JsStr s, r)
-      | JtLBrack :: JtRBrack :: r => Some (JsArr [], r)
-      | JtLBrack :: r => js_parr f r []
-      | JtLBrace :: JtRBrace :: r => Some (JsObj [], r)
-      | JtLBrace :: r => js_pobj f r []
+      | JtLBrack :: r =>
+          if js_depth_ok d then
+            match r with
+            | JtRBrack :: r' => Some (JsArr [], r')
+            | _ => js_parr f (d + 1) r []
+            end
+          else None
+      | JtLBrace :: r =>
+          if js_depth_ok d then
+            match r with
+            | JtRBrace :: r' => Some (JsObj [], r')
+            | _ => js_pobj f (d + 1) r []
+            end
+          else None
       | _ => None
       end
   end
-with js_parr (fuel : nat) (ts : list js_tok) (acc : list js_value) : option (js_value * list js_tok) :=
+with js_parr (fuel : nat) (d : Z) (ts : list js_tok) (acc : list js_value) : option (js_value * list js_tok) :=
   match fuel with
   | O => None
   | S f =>
-      match js_pval f ts with
-      | Some (v, JtComma :: r) => js_parr f r (acc ++ [v])
+      match js_pval f d ts with
+      | Some (v, JtComma :: r) => js_parr f d r (acc ++ [v])
       | Some (v, JtRBrack :: r) => Some (JsArr (acc ++ [v]), r)
       | _ => None
       end
   end
-with js_pobj (fuel : nat) (ts : list js_tok) (acc : list (list Z * js_value)) : option (js_value * list js_tok) :=
+with js_pobj (fuel : nat) (d : Z) (ts : list js_tok) (acc : list (list Z * js_value)) : option (js_value * list js_tok) :=
   match fuel with
   | O => None
   | S f =>
       match ts with
       | JtStr k :: JtColon :: r =>
-          match js_pval f r with
-          | Some (v, JtComma :: r') => js_pobj f r' (js_obj_set k v acc)
+          match js_pval f d r with
+          | Some (v, JtComma :: r') => js_pobj f d r' (js_obj_set k v acc)
           | Some (v, JtRBrace :: r') => Some (JsObj (js_obj_set k v acc), r')
           | _ => None
           end
@@ -417,8 +436,8 @@ with js_pobj (fuel : nat) (ts : list js_tok) (acc : list (list Z * js_value)) : 
 (* skip_bom *)
 Definition js_skip_bom (l : list Z) : option (list Z) :=
   match l with
-  | 239 :: t => match t with 187 :: 191 :: r => Some r | _ => None end
-  | _ => Some l
+  | b :: t => if b =? 239 then match t with 187 :: 191 :: r => Some r | _ => None end else Some l
+  | [] => Some l
   end.
 
 (* JsonDecode: ValidateUTF8, then sax_parse (strict: nothing but white space may follow the value) *)
@@ -429,7 +448,7 @@ Definition js_decode (input : list Z) : option js_value :=
       match js_lex (S (length l)) l with
       | None => None
       | Some ts =>
-          match js_pval (S (2 * length ts)) ts with
+          match js_pval (S (2 * length ts)) 0 ts with
           | Some (v, []) => Some v
           | _ => None
           end
